@@ -18,6 +18,27 @@ NOT_PROVED = ["lex_faithful (full: words/keywords with compound look-ahead, numb
               "token_limit iff (more tokens than the limit <=> E1007): only the bound is proved; the boundary is explored on the implementation by C02"]
 
 
+def ensure_coqproject():
+    """the C04 files must be known to the Coq makefile (bin/setup writes _CoqProject from the directory listing; do the
+    same here if it predates them, so that dependencies on the regenerated tables are tracked)"""
+    pj = os.path.join(common.COQ, "_CoqProject")
+    need = ["theories/Gen/LexTables.v", "theories/Model/Lexer.v", "theories/Inst/Inst_C04.v", "theories/Spec/LexSpec.v",
+            "theories/Proofs/LexerP.v", "theories/Proofs/LexSpecP.v", "theories/Props/C04.v"]
+    try:
+        have = open(pj).read().split()
+    except OSError:
+        have = []
+    if all(n in have for n in need):
+        return
+    vs = []
+    for d, _, fs in os.walk(os.path.join(common.COQ, "theories")):
+        for f in sorted(fs):
+            if f.endswith(".v") and not f.endswith("_full.v"):
+                vs.append(os.path.relpath(os.path.join(d, f), common.COQ))
+    vs.sort()
+    common.write_if_changed(pj, "-R theories GV\n-arg -w -arg -notation-overridden,-deprecated-hint-without-locality,-deprecated-instance-without-locality\n" + "\n".join(vs) + "\n")
+
+
 def hx(b):
     return b.hex()
 
@@ -308,6 +329,7 @@ def run(tier):
         with common.Lock():
             tabs = gen04.stage_lextables()
             gen04.emit_lextables(tabs)
+            ensure_coqproject()
             ok_inst, ok_props, _, logs = common.coq_stage(rp, COQ_TARGETS, PROPS, ["Props.C04." + t for t in THEOREMS])
             binp = stage_model() if ok_inst or os.path.exists(os.path.join(common.COQ, "theories", "Model", "Lexer.vo")) else None
     except common.StageError as e:
